@@ -14,6 +14,44 @@ def closure_body(p, e):
     return None
 
 
+def _two_loop_form(fl, eb, loops, tcanon):
+    """the sum variable if `loops` are two sequential while-loops whose only exits are the false
+    edges of `sum < target` and `sum > target` (one each), else None"""
+    seen = set()
+    sumvar = None
+    for h, lb in loops:
+        exits = [(b, s) for b in lb for s in fl.succs(b) if s not in lb and any(fl.blocks[x]["term"]["k"] == "return" for x in fl.reach_from(s))]
+        if len(exits) != 1:
+            return None
+        b, s = exits[0]
+        t = fl.blocks[b]["term"]
+        if t["k"] != "switch":
+            return None
+        d = eb.at(b).op(t["discr"])
+        if not (d[0] == "bin" and d[1] in ("Lt", "Gt")):
+            return None
+        names = [show(d[2]), show(d[3])]
+        if tcanon not in names:
+            return None
+        other = (d[2], d[3])[1 - names.index(tcanon)]
+        if other[0] != "var" or (sumvar is not None and other != sumvar):
+            return None
+        sumvar = other
+        # the exit is the false edge (value 0)
+        val = [v for v, tg in list(t["targets"]) + [(None, t["otherwise"])] if tg == s]
+        if val != [0]:
+            return None
+        sum_less = (d[1] == "Lt") == (names.index(tcanon) == 1)      # sum < target
+        seen.add("lt" if sum_less else "gt")
+    if seen != {"lt", "gt"}:
+        return None
+    # in sequence: one loop's header is reached from the other's exit, never the reverse
+    (h1, l1), (h2, l2) = loops
+    if not ((fl.can_reach(h1, h2) and not fl.can_reach(h2, h1)) or (fl.can_reach(h2, h1) and not fl.can_reach(h1, h2))):
+        return None
+    return sumvar
+
+
 def floor_form(ctx, p, rule, cb, want_rho=True, value=None, rho_is=None):
     """closure of estimate_duration: returns cast(max(round(mean + rho*vari), c>=1)) -> bool.
     With `value` given, judges that expression instead of the closure's return value (loop form:
@@ -314,13 +352,23 @@ def r234(ctx, p, fl):
     all_loops = fl.natural_loops()
     # the greedy loop is the outermost one; hand-written candidate searches may be nested in it
     loops = [(h_, lb_) for h_, lb_ in all_loops if not any(h2 != h_ and h_ in lb2 for h2, lb2 in all_loops)]
-    if len(loops) != 1:
+    two_loop = None
+    if len(loops) == 2:
+        # `while sum < target { +1 }` followed by `while sum > target { -1 }` (either order): each
+        # step moves sum by one towards the target, so after both loops sum == target
+        two_loop = _two_loop_form(fl, eb, loops, tcanon)
+        if two_loop is None:
+            ctx.fail("C08-R4", fl.path, "loop", "two outermost loops that are not `while sum < target` / `while sum > target` in sequence", fl.loc())
+            return
+    elif len(loops) != 1:
         ctx.fail("C08-R4", fl.path, "loop", "expected one (outermost) loop in estimate_duration_with_frame_length, found %d" % len(loops), fl.loc())
         return
     h, lb = loops[0]
+    if two_loop is not None:
+        lb = set(loops[0][1]) | set(loops[1][1])
     inner_blocks = set()
     for h2, lb2 in all_loops:
-        if h2 != h:
+        if h2 != h and not (two_loop is not None and h2 == loops[1][0]):
             inner_blocks |= set(lb2)
     # exits
     exits = []
@@ -374,7 +422,10 @@ def r234(ctx, p, fl):
                 okexit = False
         else:
             okexit = False
-    if okexit and real_exits and sumvar is not None:
+    if two_loop is not None:
+        sumvar = two_loop
+        ctx.ok("C08-R4", "two loops in sequence, `while %s < target` and `while %s > target`, each left only when its strict comparison fails: afterwards target == %s" % (show(sumvar), show(sumvar), show(sumvar)), fl.loc())
+    elif okexit and real_exits and sumvar is not None:
         ctx.ok("C08-R4", "the loop's only exit is target == %s" % show(sumvar), fl.loc())
     else:
         ctx.fail("C08-R4", fl.path, "loop exit", "the greedy loop can exit other than on target == sum (exits: %s)" % real_exits, fl.loc())
